@@ -4,6 +4,7 @@ CONSTANTS
   Methods = {"PUT", "POST"}
   MaxNth = 6
   WithBadB64 = TRUE
+  MxOld = {"none", "m1"}
   GwOld = {"none", "g1"}
   AnchorFlows = {}
   Paths <- PathsMC
@@ -13,6 +14,8 @@ CONSTANTS
   PublishBeforeInit = FALSE
   ContinueAfter405 = FALSE
   ApplyNoBackup = FALSE
+  NoReloadAfterRestore = FALSE
+  MetricsToDefaultPath = FALSE
 SPECIFICATION SpecMC
 INVARIANTS DiskAtomic BehavAtomic NeverHalf OneConfig
 CHECK_DEADLOCK FALSE
